@@ -148,7 +148,8 @@ func seqCase(c *vlib.Ctx, kind int, i int, r *vlib.Rand) {
 	var qShared qapi // written once by the case's goroutine under st.mu
 	// the sequential sections run before anything that can leave goroutines parked in Get
 	base := 0
-	o := guardCall(curWatchdog(), func() { seqBody(c, kind, i, r, st, &qShared) })
+	wd := curWatchdog()
+	o := guardCall(wd, func() { seqBody(c, kind, i, r, st, &qShared) })
 	o.rethrow()
 	if o.Returned {
 		return
@@ -182,7 +183,7 @@ func seqCase(c *vlib.Ctx, kind int, i int, r *vlib.Rand) {
 		atomic.AddInt32(&stallsSeen, 1)
 	}
 	if !conclusive {
-		c.Inconclusive(caseID, fmt.Sprintf("sequential call %q did not return within the watchdog %v after %d operations; goroutine abandoned", pending, watchdog, len(ops)))
+		c.Inconclusive(caseID, fmt.Sprintf("sequential call %q did not return within the watchdog %v after %d operations; goroutine abandoned", pending, wd, len(ops)))
 	}
 	abandonSection(c, section, fmt.Sprintf("%s: library call %q did not return", caseID, pending))
 }
